@@ -154,7 +154,12 @@ def _inv(ex, key):
         # a loop the contract does not know (new code): cut with the weakest invariant `True`.  This is sound (everything
         # the loop may touch is forgotten); whatever the proof needed about it is then simply not available.
         ex.spec.note_assumption(f'loop `{key}` has no invariant in the contract: cut with the trivial invariant')
-        return lambda lc: []
+        def trivial(lc):
+            # every state that has passed the head of this loop is marked: what the solver refutes on such a path may be an
+            # artefact of the forgotten state, so it is reported as undecided, never as a violation (pyvc.main)
+            if f'loop[{key}].noinv' not in lc.st.st.labels: lc.st.st.label(f'loop[{key}].noinv')
+            return []
+        return trivial
     return inv
 
 
